@@ -18,8 +18,16 @@ LEAN_TARGETS = ["PV.C06.Thm"]
 DRIVER = "drv_c06"
 HARNESS = {"bin": "pvh_c06", "features": "default"}
 THEOREMS = [
+    "PV.C06.decode_eq_spec",
+    "PV.C06.decode_no_panic",
     "PV.C06.escape_table_eq",
-    "PV.C06.prefix_table_eq",
+    "PV.C06.prefix_table_eq_partial",
+    "PV.C06.prefix_table_fails",
+    "PV.C06.detect_eq_spec_partial",
+    "PV.C06.detect_fails",
+    "PV.C06.concat_spec",
+    "PV.C06.int_value",
+    "PV.C06.float_scan_partial",
 ]
 TRUSTED = [
     "Lean 4.33.0 kernel; axioms limited to propext, Classical.choice, Quot.sound",
@@ -36,6 +44,9 @@ TRUSTED = [
     "tools/props/c06.py (generators, oracle), harness/src/bin/pvh_c06.rs, lean/Drv/C06.lean",
 ]
 PARTIAL = [
+    "prefix_table_eq_partial / detect_eq_spec_partial exclude the single prefix `U`: the unchanged code gives U'..' "
+    "the kind marker 'u', the reference does not (known finding kind-marker-uppercase-U; prefix_table_fails and "
+    "detect_fails are the kernel-checked witnesses)",
     "float_scan_partial: proved is that the text handed to f64::from_str is the numeral with underscores removed "
     "and the exponent marker lower-cased; the correct rounding of f64::from_str itself is trusted and sampled",
     "the lexer capture (lex_string) and parse_strings are modelled and run in correspondence; decode_eq_spec is "
@@ -218,7 +229,7 @@ def gen_tables(esc_line, prefix_line):
 
 def _sample_names(ctx):
     rng = ctx.rng("names")
-    n = 150 if ctx.quick else 1500
+    n = 1500 if ctx.quick else 20000
     names = ["BULLET", "bullet", "Latin Small Letter A", "LATIN CAPITAL LETTER GHA", "LATIN CAPITAL LETTER OI",
              "CJK UNIFIED IDEOGRAPH-4E00", "CJK UNIFIED IDEOGRAPH-20000", "HANGUL SYLLABLE GA", "HANGUL SYLLABLE HIH",
              "LINE FEED", "NULL", "NO-BREAK SPACE", "SPACE", "LEFT CURLY BRACKET", "RIGHT CURLY BRACKET",
@@ -364,7 +375,7 @@ def astral(ctx):
     rng = ctx.rng("astral")
     pts = [0x10000, 0x10001, 0x1FFFF, 0x20000, 0xFFFFF, 0x100000, 0x10FFFE, 0x10FFFF, 0xD7FF, 0xD800, 0xDBFF, 0xDC00,
            0xDFFF, 0xE000, 0xFFFD, 0xFFFE, 0xFFFF, 0, 0x7F, 0x80, 0xFF, 0x100, 0x7FF, 0x800]
-    pts += [rng.randrange(0x10000, 0x110000) for _ in range(400 if ctx.quick else 20000)]
+    pts += [rng.randrange(0x10000, 0x110000) for _ in range(5000 if ctx.quick else 200000)]
     out = []
     for p in pts:
         out.append("'\\U%08x'" % p if rng.random() < 0.5 else "'\\U%08X'" % p)
@@ -384,7 +395,7 @@ def named(ctx):
                     ("'\\N{LEFT CURLY BRACKET}\\N{RIGHT CURLY BRACKET}}'", ["LEFT CURLY BRACKET", "RIGHT CURLY BRACKET"])]:
         if accepted(src):
             reqs.append(lit(src, {k: _NAMES.get(k) for k in ks}))
-    for _ in range(60 if ctx.quick else 600):
+    for _ in range(500 if ctx.quick else 5000):
         ks = [rng.choice(names) for _ in range(rng.randrange(2, 5))]
         src = "'" + "".join(rng.choice(["x", "\\n", " ", "\\N{" + k + "}"]) for k in ks for _ in (0, 1)) + "'"
         if accepted(src):
@@ -405,7 +416,7 @@ def prefixes():
 def triple_bodies(ctx):
     """all bodies of length <= L over a small alphabet inside both triple quotes (and single quotes)"""
     alpha = ["a", "\n", "\r", "\r\n", "'", '"', "\\", "\\\n", "\\\r\n", "\\\r"]
-    L = 3 if ctx.quick else 4
+    L = 4 if ctx.quick else 5
     out = []
     for n in range(L + 1):
         for tup in itertools.product(alpha, repeat=n):
@@ -429,7 +440,7 @@ def concat(ctx):
         for a in pool:
             for b in pool:
                 out.append(f"{a} {b}")
-        for _ in range(150 if ctx.quick else 3000):
+        for _ in range(1500 if ctx.quick else 30000):
             k = rng.randrange(3, 6)
             out.append(rng.choice([" ", "  ", "\t", ""]).join(rng.choice(pool) for _ in range(k)))
     return out
@@ -437,7 +448,7 @@ def concat(ctx):
 
 def num_shapes(ctx):
     alpha = "019_.eE+-jJxXbBoOaF"
-    L = 4 if ctx.quick else 5
+    L = 5 if ctx.quick else 6
     out = []
     for n in range(1, L + 1):
         for tup in itertools.product(alpha, repeat=n):
@@ -463,9 +474,9 @@ def _exact_decimal(num, den_pow2):
 def float_boundaries(ctx):
     rng = ctx.rng("floatb")
     out = []
-    exps = range(0, 2047) if not ctx.quick else list(range(0, 2047, 7)) + [0, 1, 2, 1022, 1023, 1024, 2045, 2046]
+    exps = range(0, 2047)
     for e in exps:
-        for frac in (0, 1, 2 ** 52 - 1, rng.randrange(2 ** 52)):
+        for frac in (0, 1, 2 ** 52 - 1, rng.randrange(2 ** 52)) + (() if ctx.quick else tuple(rng.randrange(2 ** 52) for _ in range(6))):
             bits = e * 2 ** 52 + frac
             if bits == 0:
                 continue
@@ -500,7 +511,7 @@ def float_boundaries(ctx):
 def float_random(ctx):
     rng = ctx.rng("floatr")
     out = []
-    n = 2500 if ctx.quick else 100000
+    n = 20000 if ctx.quick else 300000
 
     def digits(k, lead_nonzero=False):
         s = "".join(rng.choice("0123456789") for _ in range(k))
@@ -541,7 +552,7 @@ def huge_ints(ctx):
         out += [hex(2 ** k), hex(2 ** k - 1), oct(2 ** k + 1), bin(2 ** k - 1), hex(2 ** k).upper().replace("0X", "0X")]
     for b in (31, 32, 33, 63, 64, 65, 127, 128, 129):
         out += [str(2 ** b - 1), str(2 ** b), str(2 ** b + 1), hex(2 ** b - 1), oct(2 ** b), bin(2 ** b + 1)]
-    for _ in range(300 if ctx.quick else 10000):
+    for _ in range(3000 if ctx.quick else 50000):
         v = rng.getrandbits(rng.choice([8, 31, 64, 65, 200, 1000]))
         s = rng.choice([str(v), hex(v), oct(v), bin(v), hex(v).upper().replace("0X", "0x"), "0X" + hex(v)[2:], "0O" + oct(v)[2:],
                         "0B" + bin(v)[2:]])
@@ -580,11 +591,11 @@ def streams(ctx):
                  note="every string/bytes prefix of the reference in every case and order x 4 quote styles x 7 bodies"))
     tb = list(only_accepted(triple_bodies(ctx)))
     out.append(Stream("quoted-bodies-cr-crlf-exhaustive", [lit(s) for s in tb] + [tok(s) for s in tb], kind="exhaustive",
-                      exhaustive=True, note="all bodies up to length 3/4 over {a, LF, CR, CRLF, ', \", \\, \\LF, \\CRLF, \\CR}"))
+                      exhaustive=True, note="all bodies up to length 4/5 over {a, LF, CR, CRLF, ', \", \\, \\LF, \\CRLF, \\CR}"))
     cc = list(only_accepted(concat(ctx)))
     out.append(Stream("implicit-concatenation", [lit(s) for s in cc] + [tok(s) for s in cc[:400]], kind="random"))
     out.append(S("number-shapes-exhaustive", num_shapes(ctx), kind="exhaustive", exhaustive=True,
-                 note="every text up to length 4/5 over 019_.eE+-jJxXbBoOaF that CPython reads as one numeric literal"))
+                 note="every text up to length 5/6 over 019_.eE+-jJxXbBoOaF that CPython reads as one numeric literal"))
     out.append(S("float-boundaries", float_boundaries(ctx), kind="directed",
                  note="powers of two +-1ulp, subnormals, exact halfway points and their last-digit neighbours, powers of ten, overflow edge"))
     out.append(S("float-random", float_random(ctx), kind="random"))
@@ -613,8 +624,10 @@ def classify(req, impl_out, model_out, failure):
 
 
 def search(ctx, disagreements, bins):
-    """Look for an input near the disagreements on which the real parser differs from CPython."""
-    hbin = bins.get((HARNESS["bin"], HARNESS["features"]))
+    """Look for an input on which the real parser differs from CPython: near the disagreements, or —
+    when a proof obligation broke (regenerated table no longer equals the reference table, so the
+    correspondence was not run) — in the table sweeps themselves."""
+    hbin = bins.get((HARNESS["bin"], HARNESS["features"])) or _HBIN
     if not hbin:
         return None
     cands = []
@@ -630,13 +643,15 @@ def search(ctx, disagreements, bins):
         cands.append(src + " " + src)
         cands.append(src.upper())
         cands.append(src.lower())
-    cands = list(only_accepted(cands))
+    if not disagreements:
+        cands += esc_onechar(ctx) + prefixes() + corpus() + hex_all()[:300] + octal_all()[:300]
+    cands = [c for c in only_accepted(cands) if c not in KNOWN_PROBES]
     if not cands:
         return None
     reqs = [lit(s) for s in cands]
-    outs = core.run_lines([hbin], reqs)
+    outs = core.run_lines([hbin], reqs, jobs=4)
     for r, o in zip(reqs, outs):
         f = oracle(r, o)
-        if f:
+        if f and not classify(r, o, None, f):
             return {"request": r, "impl": o, "failure": f, "stream": "violation-search"}
     return None
